@@ -1,4 +1,5 @@
 """C13 correspondence harness: shot splitting / batching / recombining."""
+import random
 import numpy as np
 from hlib import *
 from orquestra.quantum.circuits._itertools import (expand_sample_sizes, combine_bitstrings,
@@ -25,6 +26,18 @@ def gen(rng, tier):
     yield dict(kind="combine_bs", all=[[7], [8, 9]], mults=[1, -2, 3])
     yield dict(kind="combine_mc", all=[[["0", 1]]], mults=[-1, 2])
     yield dict(kind="combine_mc", all=[[["0", 1]], [["1", 2]]], mults=[2, -1, 1])
+    # fixed sparse representations (independent of the seed): many outcomes, few shots - the rounding overshoots by several
+    # shots and the elimination loop needs more than one offender per scan
+    fr = random.Random(20261001)
+    for w, N in ((5, 12), (5, 16), (5, 20), (5, 24), (4, 7), (4, 10)):
+        for _ in range(3):
+            keys = list(range(2 ** w))
+            S = 2 ** 12
+            yield dict(kind="represent", width=w, keys=keys, ps=[S // len(keys)] * len(keys), S=S, N=N, npseed=fr.randint(0, 2 ** 31))
+    for _ in range(4):       # a peak with a long tail of small weights
+        keys = list(range(32))
+        ps = [2048] + [66] * 30 + [68]
+        yield dict(kind="represent", width=5, keys=keys, ps=ps, S=4096, N=fr.choice([60, 100, 140]), npseed=fr.randint(0, 2 ** 31))
     for _ in range(n):
         r = rng.random()
         if r < 0.25:
@@ -99,6 +112,9 @@ def gen(rng, tier):
             base = S // len(keys)
             ps = [base + rng.randint(-base // 8, base // 8) for _ in keys]
             ps[-1] += S - sum(ps)
+            if ps[-1] <= 0:            # the correction must not produce a negative weight (an invalid distribution)
+                ps = [base] * len(keys)
+                ps[-1] += S - sum(ps)
             yield dict(kind="represent", width=w, keys=keys, ps=ps, S=S, N=rng.randint(max(1, len(keys) // 2), len(keys) + 2), npseed=rng.randint(0, 2 ** 31))
         elif r < 0.97:
             w = rng.randint(1, 3)
